@@ -56,8 +56,9 @@ CLAIMS = {
                 "each national algorithm reads are what its arithmetic needs - Proofs/ComputeTotal.v, NationalTotal.v - and no "
                 "German method does on a ten-digit account number - C07_total) and C05_iban_total_national (hence no text makes "
                 "IBAN(text, validate_bban=True) raise outside the family; obligation: the national step comes after the "
-                "character and format steps). Not proved for validate_bban=True: the is_valid / named-defect clauses (the "
-                "InvalidBBANChecksum case is C06). Found and fixed: Unicode \\d (d369466).",
+                "character and format steps), C05_iban_named_national (an error raised with validate_bban=True names a defect of "
+                "the text as before or - every ISO 13616 check having passed - is the national check's own error, whose meaning "
+                "is C06/C07). Found and fixed: Unicode \\d (d369466).",
         "note": COMMON_NOTE,
         "technique": "Coq proof (step-guard invariant over the generated step list, exact regex classes) + data obligations + spec-oracle and correspondence streams",
         "design_ref": "DESIGN.md §4 C05",
